@@ -1,5 +1,6 @@
 import GoatSpec.Cmd
 import GoatSpec.SkelSpec
+import GoatSpec.Proofs.Skel
 /-! # C12 — refused or failed commands leave the working tree untouched.
 
 The model evaluates the preconditions in the order of the code and only then produces a write
@@ -135,6 +136,19 @@ open GoatSpec.SkelSpec
 /-- the summary table the analyses read is a fixed point of the transfer function over the
     current skeleton (checked in the kernel, one round over every function body) -/
 theorem skeleton_table_fixed : isFixedPoint = true := by decide +kernel
+
+/-- **the table is sound**: it lies above every finite unrolling of the transfer function from
+    the empty table — hence above the least fixed point the analyses mean — so every "at most"
+    fact read off it (the theorems below, and those of C15 / C06 / C10 / C08) holds of the least
+    fixed point too. (`Proofs/Skel.iter_le_fixed`: monotonicity of the transfer function by
+    mutual structural induction over the skeleton.) -/
+theorem skeleton_table_sound : ∀ n, TblLe (iter n bottom) table := by
+  have hfix : round table = table := by
+    have h : isFixedPoint = true := by decide +kernel
+    simp only [isFixedPoint, Bool.and_eq_true, beq_iff_eq] at h
+    exact h.1.1
+  have hwf : TblWf table := tblWf_of_all table (by decide +kernel)
+  exact iter_le_fixed table hfix hwf
 
 /-- **the hooks see every write**: every file-system mutation in the project's non-test source
     (os.WriteFile/Create/OpenFile/Remove/RemoveAll/Rename/Mkdir*/…, io/ioutil, os/exec,
